@@ -270,6 +270,9 @@ func checkC05(c *Ctx) {
 			c.bad("OWN-physical-write", key, l.ipos(in), "a physical write is issued inside a logical operation: a stop right after it leaves part of the operation durable")
 		}
 	}
+	// ---- (3b) a stop between "save (v,0)" and "delete (v,1)" leaves both keys: the lookup must prefer the original
+	c.rule("ORDER-root-probe", "root lookup probes the original key before the re-keyed (version,0) key", 2)
+	checkRootProbeOrder(c)
 	// ---- (4b) background node batch vs. root batch of the importer
 	checkInflightProtocol(c, "ORDER-root-last")
 	// ---- (5) what hides index entries of an interrupted commit after the reopen
